@@ -118,7 +118,7 @@ def replay_conv(job):
             return ("violation", "value_mutates", {"expected": "value() does not alter the quantity", "observed": "changed", "x": x,
                                                    "clause": "value(unit) is out-of-place"}, nobs)
         if not r2[3]:
-            return ("violation", "to_not_inplace", {"expected": "to() returns the converted quantity itself", "observed": "another object", "x": x,
+            return ("violation", "to_not_inplace", {"expected": "after to() the quantity itself carries the converted value and units", "observed": "it does not", "x": x,
                                                     "clause": "to(unit) converts in place"}, nobs)
         # reverse conversion returns x
         if ua is not None and rule != "nounit_rad":
